@@ -3,6 +3,7 @@
    _lower table of each package): what the Properties files quote. *)
 From Strcase Require Import Base Utf8 Utf8Facts Spec SpecIndex Impl Impl2 Impl3 Impl4 Impl5 Refine_Compare Refine_Prefix Refine_Suffix Refine_Count
   Refine_RuneCase Utf8Enc Refine_RuneCase2 Refine_Byte Refine_Rune FoldFacts2
+  Impl6 Refine_RK Refine_Index Refine_Index2 Refine_Index3
   Fold FoldFacts FoldTables FoldFacts121.
 
 Theorem width_facts121 : width_facts fold121.
@@ -87,6 +88,74 @@ Proof. apply (trimsuffix_refines fold121 lower (fold_facts_pkg p) width_facts121
 Theorem cutsuffix_refines121 s suffix :
   wf s -> wf suffix -> CutSuffix fold121 lower s suffix = Ok (cut_suffix fold121 s suffix).
 Proof. apply (cutsuffix_refines fold121 lower (fold_facts_pkg p) width_facts121). Qed.
+
+(* ---- Index: the candidate test and the ToUpperLower step of the model are those of the table facts ---- *)
+
+Lemma ul_hack_eq u : Impl6.ul_hack upper_lower121 u = ul_hack_of T121 u.
+Proof.
+  unfold Impl6.ul_hack, ul_hack_of, upper_lower121. destruct ((u =? 304) || (u =? 305)); [reflexivity|].
+  destruct (to_upper_lower T121 u) as [[up lo] b]. reflexivity.
+Qed.
+
+Lemma cand_eq u r :
+  Impl6.cand (fst (Impl6.ul_hack upper_lower121 u)) (snd (Impl6.ul_hack upper_lower121 u)) (fold_map_excl121 u) r = cand2 T121 u r.
+Proof. rewrite ul_hack_eq. reflexivity. Qed.
+
+Section IndexInst.
+Variable native : bool.
+Variable cutover : Z -> Z.
+Variables maxBruteForce maxLen primeRK : Z.
+
+Theorem bruteforce_refines121 s sub :
+  wf s -> wf sub -> (2 <= rune_count sub)%nat ->
+  Impl6.bruteForceIndexUnicode fold121 lower fold_map_excl121 upper_lower121 p s sub = Ok (index fold121 s sub).
+Proof.
+  apply (bruteforce_refines fold121 lower (fold_facts_pkg p) width_facts121 fold_map_excl121 upper_lower121 p).
+  intros u r Hu Hr. rewrite cand_eq. apply cand2_exact; assumption.
+Qed.
+
+Theorem rabinkarp_refines121 s sub :
+  wf s -> wf sub -> sub <> [] ->
+  Impl6.indexRabinKarpUnicode fold121 lower primeRK p s sub = Ok (index fold121 s sub).
+Proof. apply (rabinkarp_refines fold121 lower (fold_facts_pkg p) width_facts121). Qed.
+
+(* the whole of Index, on every pair of byte strings, for every threshold configuration *)
+Theorem index_refines121 s sub :
+  wf s -> wf sub ->
+  Impl6.Index native cutover fold121 lower fold_map121 fold_map_excl121 upper_lower121 maxBruteForce maxLen primeRK p s sub =
+  Ok (index fold121 s sub).
+Proof.
+  apply (index_refines fold121 lower (fold_facts_pkg p) width_facts121 native cutover fold_map121 fold_map_excl121 upper_lower121
+           maxBruteForce maxLen primeRK p).
+  - intros r0 x Hr Hx. rewrite cands_of_eq. apply cands_exact; assumption.
+  - intros r0 x Hr Hx. rewrite cands_of_eq in Hx. apply (cands_range r0 x Hr Hx).
+  - intros r0 x Hr Hx. apply ascii_cands_exact; assumption.
+  - intros x Hx. apply rune_error_alone. exact Hx.
+  - intros u r Hu Hr. rewrite cand_eq. apply cand2_exact; assumption.
+  - intros u V _. rewrite ul_hack_eq. apply ul_hack_facts. exact V.
+Qed.
+
+Theorem contains_refines121 s sub :
+  wf s -> wf sub ->
+  Impl6.Contains native cutover fold121 lower fold_map121 fold_map_excl121 upper_lower121 maxBruteForce maxLen primeRK p s sub =
+  Ok (contains fold121 s sub).
+Proof.
+  intros Hs Hsub. unfold Impl6.Contains. rewrite (index_refines121 s sub Hs Hsub). cbn [bind]. rewrite contains_index. reflexivity.
+Qed.
+
+(* Count and Cut around the real Index *)
+Notation Index121 := (Impl6.Index native cutover fold121 lower fold_map121 fold_map_excl121 upper_lower121 maxBruteForce maxLen primeRK p).
+
+Theorem count_index_refines121 s sub :
+  wf s -> wf sub -> (forall c, sub = [c] -> 128 <= c) ->
+  Count Index121 p s sub = Ok (count fold121 s sub).
+Proof. apply (count_refines_general fold121 Index121). intros; apply index_refines121; assumption. Qed.
+
+Theorem cut_index_refines121 s sep :
+  wf s -> wf sep -> Cut Index121 p s sep = Ok (cut fold121 s sep).
+Proof. apply (cut_refines fold121 Index121). intros; apply index_refines121; assumption. Qed.
+
+End IndexInst.
 
 (* Count and Cut are loops around Index: instantiated with Index's specification *)
 Definition idx_spec (s t : bytes) : res Z := Ok (index fold121 s t).
